@@ -28,6 +28,7 @@ package composer
 //@ func (*constraint).matches
 //@   ensures op*: c.operator == "*" ==> result   [C02 C20]
 //@   ensures nil-bound: c.operator != "*" && c.operator != "@" && c.operator != "caret" && c.operator != "caret-0x" && c.operator != "caret-00x" && c.version == nil ==> !result   [C02 C20]
+//@   ensures caret-routing: (c.operator == "caret" ==> result == c.matchesCaret(version)) && (c.operator == "caret-0x" ==> result == c.matchesCaretZeroX(version)) && (c.operator == "caret-00x" ==> result == c.matchesCaretZeroZeroX(version))   [C05]
 //@   ensures op=: c.version != nil && c.operator == "=" ==> result == (version.Compare(c.version) == 0)   [C02 C20]
 //@   ensures op!=: c.version != nil && c.operator == "!=" ==> result == (version.Compare(c.version) != 0)   [C02 C20]
 //@   ensures op<: c.version != nil && c.operator == "<" ==> result == (version.Compare(c.version) < 0)   [C02 C20]
@@ -48,3 +49,34 @@ package composer
 
 //@ func (*VersionRange).String
 //@   ensures text: result == arg0.original   [C18]
+
+// ---- shorthand desugaring (C05): tilde constraints become a comparator pair; nv(s) is the parsed base, the upper bound is
+// the parse of the bumped text (read back through NewVersion; text-to-fields agreement is the bounded layer)
+//@ spec dots(s string) int = len(strings.Split(s, "."))
+//@ func parseTildeConstraint
+//@   ensures rejects-bad-base: theEcosystem().NewVersion(version).1 != nil ==> result1 != nil   [C05]
+//@   ensures dev-exact: theEcosystem().NewVersion(version).1 == nil && theEcosystem().NewVersion(version).0.isDev ==> result1 == nil && len(result0) == 1 && result0[0].operator == "=" && result0[0].version == theEcosystem().NewVersion(version).0   [C05]
+//@   ensures one-component: theEcosystem().NewVersion(version).1 == nil && !theEcosystem().NewVersion(version).0.isDev && dots(version) == 1 && theEcosystem().NewVersion(version).0.major < 9223372036854775807 && result1 == nil ==> len(result0) == 2 && result0[0].operator == ">=" && result0[0].version == theEcosystem().NewVersion(itoa(theEcosystem().NewVersion(version).0.major) + ".0.0").0 && result0[1].operator == "<" && result0[1].version == theEcosystem().NewVersion(itoa(theEcosystem().NewVersion(version).0.major + 1) + ".0.0").0   [C05]
+//@   ensures two-components: theEcosystem().NewVersion(version).1 == nil && !theEcosystem().NewVersion(version).0.isDev && dots(version) == 2 && theEcosystem().NewVersion(version).0.major < 9223372036854775807 && result1 == nil ==> len(result0) == 2 && result0[0].operator == ">=" && result0[0].version == theEcosystem().NewVersion(itoa(theEcosystem().NewVersion(version).0.major) + "." + itoa(theEcosystem().NewVersion(version).0.minor) + ".0").0 && result0[1].operator == "<" && result0[1].version == theEcosystem().NewVersion(itoa(theEcosystem().NewVersion(version).0.major + 1) + ".0.0").0   [C05]
+//@   ensures three-components: theEcosystem().NewVersion(version).1 == nil && !theEcosystem().NewVersion(version).0.isDev && dots(version) != 1 && dots(version) != 2 && theEcosystem().NewVersion(version).0.minor < 9223372036854775807 && result1 == nil ==> len(result0) == 2 && result0[0].operator == ">=" && result0[0].version == theEcosystem().NewVersion(version).0 && result0[1].operator == "<" && result0[1].version == theEcosystem().NewVersion(itoa(theEcosystem().NewVersion(version).0.major) + "." + itoa(theEcosystem().NewVersion(version).0.minor + 1) + ".0").0   [C05]
+
+//@ spec caretBase(v *Version) string = v.extra != 0 ? itoa(v.major) + "." + itoa(v.minor) + "." + itoa(v.patch) + "." + itoa(v.extra) : itoa(v.major) + "." + itoa(v.minor) + "." + itoa(v.patch)
+//@ spec caretBase0x(v *Version) string = v.extra != 0 ? "0." + itoa(v.minor) + "." + itoa(v.patch) + "." + itoa(v.extra) : "0." + itoa(v.minor) + "." + itoa(v.patch)
+//@ spec caretBase00x(v *Version) string = v.extra != 0 ? "0.0." + itoa(v.patch) + "." + itoa(v.extra) : "0.0." + itoa(v.patch)
+//@ func parseCaretConstraint
+//@   ensures rejects-bad-base: theEcosystem().NewVersion(version).1 != nil ==> result1 != nil   [C05]
+//@   ensures dev-exact: theEcosystem().NewVersion(version).1 == nil && theEcosystem().NewVersion(version).0.isDev ==> result1 == nil && len(result0) == 1 && result0[0].operator == "=" && result0[0].version == theEcosystem().NewVersion(version).0   [C05]
+//@   ensures major-prerelease-base: theEcosystem().NewVersion(version).1 == nil && !theEcosystem().NewVersion(version).0.isDev && theEcosystem().NewVersion(version).0.major > 0 && theEcosystem().NewVersion(version).0.major < 9223372036854775807 && theEcosystem().NewVersion(version).0.stability != 4 && result1 == nil ==> len(result0) == 2 && result0[0].operator == ">=" && result0[0].version == theEcosystem().NewVersion(version).0 && result0[1].operator == "<" && result0[1].version == theEcosystem().NewVersion(itoa(theEcosystem().NewVersion(version).0.major + 1) + ".0.0").0   [C05]
+//@   ensures minor-prerelease-base: theEcosystem().NewVersion(version).1 == nil && !theEcosystem().NewVersion(version).0.isDev && theEcosystem().NewVersion(version).0.major <= 0 && theEcosystem().NewVersion(version).0.minor > 0 && theEcosystem().NewVersion(version).0.minor < 9223372036854775807 && theEcosystem().NewVersion(version).0.stability != 4 && result1 == nil ==> len(result0) == 2 && result0[0].operator == ">=" && result0[0].version == theEcosystem().NewVersion(version).0 && result0[1].operator == "<" && result0[1].version == theEcosystem().NewVersion("0." + itoa(theEcosystem().NewVersion(version).0.minor + 1) + ".0").0   [C05]
+//@   ensures patch-prerelease-base: theEcosystem().NewVersion(version).1 == nil && !theEcosystem().NewVersion(version).0.isDev && theEcosystem().NewVersion(version).0.major <= 0 && theEcosystem().NewVersion(version).0.minor <= 0 && theEcosystem().NewVersion(version).0.patch < 9223372036854775807 && theEcosystem().NewVersion(version).0.stability != 4 && result1 == nil ==> len(result0) == 2 && result0[0].operator == ">=" && result0[0].version == theEcosystem().NewVersion(version).0 && result0[1].operator == "<" && result0[1].version == theEcosystem().NewVersion("0.0." + itoa(theEcosystem().NewVersion(version).0.patch + 1)).0   [C05]
+//@   ensures major-stable-base: theEcosystem().NewVersion(version).1 == nil && !theEcosystem().NewVersion(version).0.isDev && theEcosystem().NewVersion(version).0.major > 0 && theEcosystem().NewVersion(version).0.stability == 4 && result1 == nil ==> len(result0) == 1 && result0[0].operator == "caret" && result0[0].version == theEcosystem().NewVersion(caretBase(theEcosystem().NewVersion(version).0)).0   [C05]
+//@   ensures minor-stable-base: theEcosystem().NewVersion(version).1 == nil && !theEcosystem().NewVersion(version).0.isDev && theEcosystem().NewVersion(version).0.major <= 0 && theEcosystem().NewVersion(version).0.minor > 0 && theEcosystem().NewVersion(version).0.stability == 4 && result1 == nil ==> len(result0) == 1 && result0[0].operator == "caret-0x" && result0[0].version == theEcosystem().NewVersion(caretBase0x(theEcosystem().NewVersion(version).0)).0   [C05]
+//@   ensures patch-stable-base: theEcosystem().NewVersion(version).1 == nil && !theEcosystem().NewVersion(version).0.isDev && theEcosystem().NewVersion(version).0.major <= 0 && theEcosystem().NewVersion(version).0.minor <= 0 && theEcosystem().NewVersion(version).0.stability == 4 && result1 == nil ==> len(result0) == 1 && result0[0].operator == "caret-00x" && result0[0].version == theEcosystem().NewVersion(caretBase00x(theEcosystem().NewVersion(version).0)).0   [C05]
+
+// the three caret matchers on stable probes (composer's stability rules for pre-release probes are not claimed)
+//@ func (*constraint).matchesCaret
+//@   ensures stable-probe: c.version != nil && c.version.major < 9223372036854775807 && version.stability == 4 ==> result == (version.major == c.version.major && version.Compare(c.version) >= 0)   [C05]
+//@ func (*constraint).matchesCaretZeroX
+//@   ensures zero-x: c.version != nil && c.version.minor < 9223372036854775807 ==> result == (version.major == 0 && version.minor == c.version.minor && ((version.patch == c.version.patch && version.extra >= c.version.extra) || version.Compare(c.version) >= 0))   [C05]
+//@ func (*constraint).matchesCaretZeroZeroX
+//@   ensures zero-zero-x: c.version != nil ==> result == (version.major == 0 && version.minor == 0 && version.patch == c.version.patch && (version.extra >= c.version.extra || version.Compare(c.version) >= 0))   [C05]
